@@ -11,15 +11,15 @@ _PROBE = "; generated code comes from api.Generate run at check time on two hand
 
 CLAIMED = {
     "C01": {
-        "text": "bounded: freshly generated executors (2 configurations quick, 7 thorough) executed symbolically with their goroutines; for 14 operation families (incl. lists of scalars) with symbolic @skip/@include variables and resolver/directive outcomes in {value,null,error} (deviation budget 1 quick / 2 thorough) the data bytes and the multiset of error paths equal an independent reference implementation of the GraphQL execution algorithm; one genuine deviation (error path of a null scalar-list element) is recorded as a known finding",
+        "text": "bounded: freshly generated executors (2 configurations quick, 7 thorough) executed symbolically with their goroutines; for 16 operation families (incl. lists of scalars, @skip and @include on one node, an object with a single resolver-backed field under aliases) with symbolic @skip/@include variables and resolver/directive outcomes in {value,null,error} (deviation budget 1 quick / 2 thorough) the data bytes and the multiset of error paths equal an independent reference implementation of the GraphQL execution algorithm; one genuine deviation (error path of a null scalar-list element) is recorded as a known finding; subscriptions: one response per event equal to the reference for that event",
         "design_ref": "DESIGN.md section 4, C01", "note": _N + _PROBE, "technique": _T,
     },
     "C04": {
-        "text": "bounded fault enumeration decided by the solver-driven explorer: {error, panic} at every resolver/directive position of the families (single faults quick, pairs thorough), on calling and spawned goroutines and list elements, worker_limit 0/1/2: response equals the reference with that position failed, recover hook once per panic, no panic escapes a goroutine; the same for faults inside and outside deferred groups of 7 @defer operations against a defer-aware reference",
+        "text": "bounded fault enumeration decided by the solver-driven explorer: {error, panic} at every resolver/directive position of the families (single faults quick, pairs thorough), on calling and spawned goroutines and list elements, worker_limit 0/1/2: response equals the reference with that position failed, recover hook once per panic, no panic escapes a goroutine; the same for faults inside and outside deferred groups of 7 @defer operations against a defer-aware reference; the field interceptor failing around any one field; faults while subscribing, inside a subscription event, and while a websocket operation is dispatched",
         "design_ref": "DESIGN.md section 4, C04", "note": _N + _PROBE, "technique": _T,
     },
     "C05": {
-        "text": "bounded: list fan-out (3+2 elements) with the context cancelled at 9 points x worker_limit 0/1/2 - the join terminates (deadlock = every task blocked is a violation) and no task survives; 7 @defer families consumed for one payload then cancelled - no task left blocked; drained under cancellation at 7 points; 10 @defer operations with failing / null positions drained without cancellation (the response function must end the sequence)",
+        "text": "bounded: list fan-out (3+2 elements) with the context cancelled at 9 points x worker_limit 0/1/2 - the join terminates (deadlock = every task blocked is a violation) and no task survives; 7 @defer families consumed for one payload then cancelled - no task left blocked; drained under cancellation at 7 points; 10 @defer operations with failing / null positions drained without cancellation (the response function must end the sequence); SSE and multipart/mixed Do with the context cancelled while any payload is produced (no goroutine of the transport left)",
         "design_ref": "DESIGN.md section 4, C05", "note": _N + _PROBE + "; real context.WithCancel and x/sync/semaphore interpreted from source", "technique": _T + "; deadlock/leak detection by the deterministic task scheduler",
     },
     "C11": {
@@ -35,11 +35,11 @@ CLAIMED = {
         "design_ref": "DESIGN.md section 4, C13", "note": _N + _PROBE, "technique": _T + "; schedule exploration, gated native replay of completion orders",
     },
     "C16": {
-        "text": "bounded: introspection wrappers on harness-built definitions with symbolic @deprecated/description/default on every field, argument, input field, enum value, directive argument; generated __schema/__type resolvers behind aliases/fragments/@include with DisableIntrospection symbolic",
+        "text": "bounded: introspection wrappers on harness-built definitions with symbolic @deprecated/description/default on every field, argument, input field, enum value, directive argument; generated __schema/__type resolvers behind aliases/fragments/@include with DisableIntrospection symbolic; every type of a schema with an interface hierarchy, unions, wrappers, oneOf, specifiedBy and repeatable directives compared with the ast.Schema (kinds, interfaces, possible types, ofType chains, type list, root types, directives)",
         "design_ref": "DESIGN.md section 4, C16", "note": _N + "; arbitrary schemas and byte-level SDL reconstruction are outside the bound", "technique": _T,
     },
     "C20": {
-        "text": "bounded: generated __resolve_entities / resolveEntity / resolveManyEntities on lists of up to 2 (quick) / 3 (thorough) representations over 11 shapes with at most one failing lookup; every completion order of groups and entity goroutines with a happens-before race check on the result list; one genuine defect (multi resolver with several keys) is a known finding",
+        "text": "bounded: generated __resolve_entities / resolveEntity / resolveManyEntities on lists of up to 2 (quick) / 3 (thorough) representations over 15 shapes with at most one failing lookup, entity resolvers honouring their context, incl. the explicit_requires and computed_requires options; every completion order of groups and entity goroutines with a happens-before race check on the result list; the genuine defect found (multi resolver with several keys) is fixed in /repo",
         "design_ref": "DESIGN.md section 4, C20", "note": _N + _PROBE, "technique": _T + "; schedule exploration",
     },
     "C06": {
@@ -47,11 +47,11 @@ CLAIMED = {
         "design_ref": "DESIGN.md section 4, C06", "note": _N + _PROBE + "; race counterexamples are confirmed with go test -race", "technique": _T + "; happens-before race detection over explored schedules",
     },
     "C02": {
-        "text": "full width for typed integers (every Unmarshal{Int,Int64,Int32,Uint,Uint64,Uint32,IntID,UintID} on int/int64/int32/uint64 inputs with symbolic 64-bit values: accepted => mathematically unchanged, in range => accepted); boundary grid for numeric texts; generated argument binders on a 23-case corpus compared with hand-annotated coerced values (2 configurations quick, 4 thorough)",
+        "text": "full width for typed integers (every Unmarshal{Int,Int64,Int32,Uint,Uint64,Uint32,IntID,UintID} on int/int64/int32/uint64 inputs with symbolic 64-bit values: accepted => mathematically unchanged, in range => accepted); boundary grid for numeric texts; generated argument binders on a 34-case corpus (incl. an Omittable-backed and a map-backed input) compared with hand-annotated coerced values (2 configurations quick, 4 thorough); 21 requests with variables through executor.CreateOperationContext (defaults, presence, JSON forms); two genuine deviations (unprovided variable inside an input literal; explicit null variable in a non-null position) are recorded as known findings",
         "design_ref": "DESIGN.md section 4, C02", "note": _N + _PROBE + "; options that change resolver signatures (nullable_input_omittable, struct_fields_always_pointers) are outside the bound", "technique": _T,
     },
     "C03": {
-        "text": "bounded: real Executor.CreateOperationContext/parseQuery/DispatchOperation with the real gqlparser interpreted, over a 12-request corpus x symbolic mutator verdicts x cache states x suggestion setting; hook order over all lists of <=3 extensions from 5 hook subsets; request histories through one Server and its POST transport ending in each of 10 requests that must be rejected; the solver decides every branch and assertion inside these bounds",
+        "text": "bounded: real Executor.CreateOperationContext/parseQuery/DispatchOperation with the real gqlparser interpreted, over a 12-request corpus x symbolic mutator verdicts x cache states x suggestion setting; hook order over all lists of <=3 extensions from 5 hook subsets; request histories through one Server and its POST transport ending in each of 10 requests that must be rejected; one document per validation rule of the specification (29) under suggestions on/off, cache, and a prior suggestions-disabled executor; the solver decides every branch and assertion inside these bounds",
         "design_ref": "DESIGN.md section 4, C03", "note": _N, "technique": _T,
     },
     "C07": {
@@ -63,7 +63,7 @@ CLAIMED = {
         "design_ref": "DESIGN.md section 4, C08", "note": _N, "technique": _T,
     },
     "C09": {
-        "text": "bounded: Server.ServeHTTP -> GET/POST/GRAPHQL/UrlEncodedForm transports -> real Executor and gqlparser (interpreted) with an ExecutableSchema fake, over 10 documents x operationName x 9 Accept headers x 4 ResponseHeaders settings, malformed-request corpus, unsupported requests; status, Content-Type, JSON body, 'GET only queries', 'exactly the named operation' asserted on a ResponseWriter fake; also with the document supplied by an operation-parameter mutator (APQ hash-only requests) and for two-request sequences",
+        "text": "bounded: Server.ServeHTTP -> GET/POST/GRAPHQL/UrlEncodedForm transports -> real Executor and gqlparser (interpreted) with an ExecutableSchema fake, over 10 documents x operationName x 9 Accept headers x 4 ResponseHeaders settings, malformed-request corpus, unsupported requests; status, Content-Type, JSON body, 'GET only queries', 'exactly the named operation' asserted on a ResponseWriter fake; also with the document supplied by an operation-parameter mutator (APQ hash-only requests), for two-request sequences, and for content negotiation across two requests with configured response headers",
         "design_ref": "DESIGN.md section 4, C09", "note": _N, "technique": _T,
     },
     "C10": {
